@@ -48,10 +48,176 @@ def fbscript(rng, d, p=0.5):
     return " fb=%d:%s" % (lat, out)
 
 
+def ondrop(rng, d, x, c2, pfail=0.3):
+    """`manual ondrop c=x by=c2 …`: when the unfinished inner call of x is destroyed (x is dropped while in flight),
+    caller c2 arrives from inside that destructor and is polled once there: the cancelled call is still inside the
+    wrapped service, so whatever it holds (a half-open trial slot) is still held"""
+    tag = " tag=%d" % rng.randint(0, 9) if d.get("cls") == 2 else ""
+    return "manual ondrop c=%d by=%d inner=%d:%s%s%s" % (x, c2, rng.choice([0, 0, 5, 50, 500]), outcome(rng, pfail), tag, fbscript(rng, d))
+
+
 def outcome(rng, pfail):
     if rng.random() < pfail:
         return rng.choice(["err1", "err1", "err2"])
     return "ok"
+
+
+# ----------------------------------------------------------------------------- thresholds: exact rationals vs f64
+#
+# The model (and the reference machine `Spec` below) compare rates exactly: `k/n >= num/den  <=>  k*den >= num*n`.
+# The code computes `k as f64 / n as f64 >= threshold` with `threshold` = the double nearest to num/den (the harness
+# builds it as `num as f64 / den as f64`, which is the same double as the decimal literal, e.g. 28/100 == 0.28).
+# Both sides of the code's comparison are correctly rounded values of the exact rationals and rounding is monotone, so
+# k/n >= num/den implies fl(k/n) >= fl(num/den); conversely two different rationals with n, den <= 2^20 differ by at
+# least 1/(n*den) >= 2^-40, far more than one ulp (<= 2^-53 in [0,1]), so k/n < num/den implies fl(k/n) < fl(num/den).
+# `f64_agrees` checks exactly this, with python floats (IEEE doubles, correctly rounded division: the same values as
+# Rust's), for every (threshold, total, count) a generated case can evaluate; every generator below calls it.
+
+_F64_OK = {}
+
+
+def f64_agrees(fr, nmax):
+    """for every total n <= nmax and count k <= n: (k as f64 / n as f64 >= num as f64 / den as f64) == (k*den >= num*n)"""
+    num, den = frac(fr, "1/2")
+    done = _F64_OK.get((num, den), 0)
+    if nmax > done:
+        th = num / den
+        for n in range(max(done, 0) + 1, nmax + 1):
+            lo = num * n // den
+            for k in range(max(0, lo - 2), min(n, lo + 3) + 1):      # away from the boundary both comparisons are monotone in k
+                if ((k / n) >= th) != (k * den >= num * n):
+                    raise AssertionError("f64 comparison %d/%d >= %d/%d differs from the exact one: the model's thresholds do not "
+                                         "represent the code on this configuration" % (k, n, num, den))
+            if ((0 / n) >= th) != (0 >= num * n) or ((n / n) >= th) != (n * den >= num * n):
+                raise AssertionError("f64 comparison differs from the exact one at 0/%d or %d/%d for %d/%d" % (n, n, n, num, den))
+        _F64_OK[(num, den)] = nmax
+    return True
+
+
+def check_f64(d, ncalls):
+    """every threshold of configuration d against every total it can be compared at (count-based: the full window;
+    time-based: anything up to the number of calls of the case)"""
+    nmax = int(d["size"]) if d.get("wtype") != "time" else max(int(d["size"]), ncalls)
+    f64_agrees(d["fr"], max(nmax, 1))
+    if "slow" in d:
+        f64_agrees(d.get("sr", "1/1"), max(nmax, 1))
+
+
+_BOUNDARIES = None
+
+
+def boundaries():
+    """exact-boundary triples (num, den, n, k) with k/n == num/den, thresholds with two or three decimals, n <= 100:
+    `plain`, and `sensitive` = one list per algebraically equivalent f64 formulation of `k/n >= threshold`
+    (cross-multiplied, divided the other way, complementary rate, percentages) of the triples where that formulation
+    answers differently from the exact comparison — the places where a rewrite of the comparison shows"""
+    global _BOUNDARIES
+    if _BOUNDARIES is None:
+        plain, sensitive = [], [[], [], [], []]
+        for den in (100, 1000):
+            for num in range(1, den):
+                if den == 1000 and num % 10 == 0:
+                    continue
+                th = num / den
+                for n in range(2, 101):
+                    if (num * n) % den:
+                        continue
+                    k = num * n // den
+                    fk, fn = float(k), float(n)
+                    alts = [fk >= th * fn and fk - th * fn >= 0.0, fk / th >= fn, (fn - fk) / fn <= 1.0 - th,
+                            100.0 * fk / fn >= th * 100.0 and fk / fn * 100.0 >= th * 100.0 and fk / fn - th >= 0.0]
+                    for ok, cls in zip(alts, sensitive):
+                        if not ok:
+                            cls.append((num, den, n, k))
+                    if all(alts):
+                        plain.append((num, den, n, k))
+        _BOUNDARIES = (plain, [cls for cls in sensitive if cls])
+    return _BOUNDARIES
+
+
+def gen_boundary(rng, tier):
+    """"… the failure rate or the enabled slow-call rate over the sliding window REACHES its threshold": thresholds with
+    two or three decimals, windows up to 100 (count-based: window size; time-based: minimum_number_of_calls), sequential
+    histories whose window ends with the count exactly at the boundary, one below it and one above it — reached at the
+    first evaluation, or by sliding (count-based eviction / time-based expiry) from one below. Half of the exact
+    boundaries are float-sensitive ones (see `boundaries`)."""
+    plain, sensitive = boundaries()
+    r = rng.random()
+    if r < 0.5:
+        num, den, n, k = rng.choice(rng.choice(sensitive))
+    elif r < 0.85:
+        num, den, n, k = rng.choice(plain)
+    else:
+        den = rng.choice([100, 1000])
+        num = rng.randint(1, den - 1)
+        n = rng.randint(2, 100)
+        k = -(-num * n // den)          # smallest count that reaches the threshold
+    th = "%d/%d" % (num, den)
+    time_based = rng.random() < 0.4
+    by_slow = rng.random() < 0.35
+    d = {"size": n, "wait": rng.choice([10, 50, 100]), "permitted": rng.choice([1, 2, 3])}
+    if time_based:
+        d["wtype"] = "time"
+        d["wdur"] = rng.choice([2000, 5000, 100000])
+        d["min"] = n
+        d["size"] = rng.choice([n, 10, 100])          # irrelevant for time-based windows
+    elif rng.random() < 0.5:
+        d["min"] = rng.choice([1, max(1, n // 2), n])
+    S = rng.choice([2, 5])
+    other = rng.choice(["1/1", "999/1000", "3/4", "1/2"])
+    if by_slow:
+        d["fr"], d["slow"], d["sr"] = other, S, th
+    else:
+        d["fr"] = th
+        if rng.random() < 0.4:
+            d["slow"], d["sr"] = S, other
+    d["cls"] = 0
+    variant = rng.choice(["at", "at", "below", "above", "slide", "slide"])
+    m = {"at": k, "below": k - 1, "above": min(n, k + 1), "slide": k - 1}[variant]
+    m = max(0, m)
+    ops = []
+    c = [0]
+    now = [0]
+
+    def call(marked, probe=False):
+        c[0] += 1
+        if marked and by_slow:
+            lat = rng.choice([S, S, S + 1])
+            ops.extend(["arrive %d inner=%d:ok" % (c[0], lat), "poll %d" % c[0], "adv %d" % lat, "poll %d" % c[0]])
+            now[0] += lat
+        elif marked:
+            ops.extend(["arrive %d inner=0:%s" % (c[0], rng.choice(["err1", "err2"])), "poll %d" % c[0]])
+        elif "slow" in d and rng.random() < 0.15:
+            ops.extend(["arrive %d inner=%d:ok" % (c[0], S - 1), "poll %d" % c[0], "adv %d" % (S - 1), "poll %d" % c[0]])
+            now[0] += S - 1
+        else:
+            ops.extend(["arrive %d inner=0:ok" % c[0], "poll %d" % c[0]])
+        if probe or rng.random() < 0.08:
+            ops.append("probe views")
+
+    if time_based and rng.random() < 0.4 and d["wdur"] < 100000:
+        # records that will have expired when the window is first evaluated
+        for _ in range(rng.randint(1, max(1, min(n - 1, 5)))):
+            call(True)
+        ops.append("adv %d" % (d["wdur"] + 1))
+        now[0] += d["wdur"] + 1
+    marks = [True] * m + [False] * (n - m)
+    rng.shuffle(marks)
+    if variant == "slide" and not time_based and marks and rng.random() < 0.7:
+        # the oldest outcome is an unmarked one: the next marked call evicts it and moves the count onto the boundary
+        if False in marks:
+            i = marks.index(False)
+            marks[0], marks[i] = marks[i], marks[0]
+    for i, mk in enumerate(marks):
+        call(mk, probe=(i >= n - 2))
+    if variant == "slide":
+        call(True, probe=True)
+    for _ in range(rng.randint(1, 4)):
+        call(rng.random() < 0.5, probe=True)
+    if rng.random() < 0.8:
+        ops += ["adv %d" % d["wait"], "arrive %d inner=0:ok" % (c[0] + 1), "poll %d" % (c[0] + 1), "probe views"]
+    check_f64(d, c[0] + 1)
+    return {"header": header(d), "ops": ops}
 
 
 def gen_seq(rng, tier):
@@ -86,6 +252,7 @@ def gen_seq(rng, tier):
         else:
             pfail = rng.choice([0.0, 0.2, 0.5, 0.8, 1.0])
         ops.append("probe views")
+    check_f64(d, c)
     return {"header": header(d), "ops": ops}
 
 
@@ -104,6 +271,7 @@ def gen_conc(rng, tier, halfopen_bias=False):
     w = _w(d)
     n = rng.randint(15, 70)
     pfail = rng.choice([0.3, 0.6, 0.9, 1.0]) if not halfopen_bias else rng.choice([0.0, 0.2, 0.5])
+    ondrop_p = rng.choice([0, 0.3, 0.8])
     if halfopen_bias:
         # open it quickly: failures until open (or force), then wait
         if rng.random() < 0.5:
@@ -138,6 +306,11 @@ def gen_conc(rng, tier, halfopen_bias=False):
             ops.append("poll %d" % x)
         elif r < 0.62 and live:
             x = rng.choice(live)
+            if rng.random() < ondrop_p:
+                # somebody arrives while the cancelled call of x is being torn down inside the wrapped service
+                c += 1
+                ops.append(ondrop(rng, d, x, c, pfail))
+                live.append(c)
             ops.append("drop %d" % x)
             live.remove(x)
         elif r < 0.80:
@@ -234,7 +407,7 @@ def gen_c03(rng, tier):
 
 
 def gen_c04(rng, tier):
-    return gen_seq(rng, tier)
+    return gen_boundary(rng, tier) if rng.random() < 0.25 else gen_seq(rng, tier)
 
 
 def gen_stale_trial(rng, tier):
@@ -286,11 +459,100 @@ def gen_stale_trial(rng, tier):
     return {"header": header(d), "ops": ops}
 
 
+def gen_episodes(rng, tier):
+    """several half-open episodes in one history. In each earlier episode some trials are admitted and stay in flight
+    ("leftovers"); the episode is ended in the middle by an operator (`reset`, `force_closed`, `force_open`) or by a
+    failing trial; the breaker is tripped again (failures or force_open) and half-opens again. In the last episode all
+    `permitted` slots are taken by trials that stay in flight; only then are the leftovers of the earlier episodes
+    dropped (some with a caller arriving during their tear-down) or completed, each followed by a late caller: a
+    leftover holds no slot of the current episode, so nothing it does may admit anybody. Finally a trial of the current
+    episode is dropped (again possibly with an arrival during its tear-down: still rejected) and the next caller gets
+    its slot."""
+    d = gen_cfg(rng, "conc")
+    size = d["size"] = rng.choice([1, 2, 3])
+    d.pop("min", None)
+    d.pop("slow", None)
+    d.pop("sr", None)
+    d["fr"] = rng.choice(["1/2", "1/1"])
+    p = d["permitted"] = rng.choice([1, 1, 2, 2, 3])
+    if d["wait"] == "max":
+        d["wait"] = 50
+    w = d["wait"]
+    ops = []
+    c = [0]
+    state = ["closed"]
+
+    def arrive(inner, poll=True):
+        c[0] += 1
+        tag = " tag=%d" % (2 * rng.randint(0, 4)) if d["cls"] == 2 else ""      # even tags: `ok` is a success for every classifier
+        ops.append("arrive %d inner=%s%s%s" % (c[0], inner, tag, fbscript(rng, d, 0.3)))
+        if poll:
+            ops.append("poll %d" % c[0])
+        return c[0]
+
+    def trip():
+        if state[0] == "closed":
+            if rng.random() < 0.6:
+                for _ in range(size):
+                    arrive("0:err1")        # a failure for every classifier; `size` of them fill the window at rate 1
+            else:
+                ops.append("manual force_open")
+        state[0] = "open"
+        ops.append("adv %d" % rng.choice([w, w, w + 1]))
+
+    leftovers = []
+    for _ in range(rng.choice([1, 1, 1, 2, 2, 3])):
+        trip()
+        j = rng.randint(1, p)
+        for _ in range(j):
+            leftovers.append(arrive(rng.choice(["0:never", "5000:ok", "5000:err1", "700:ok"])))
+        if rng.random() < 0.3:
+            ops.append("probe views")
+        ends = ["reset", "reset", "force_closed", "force_open"] + (["fail", "fail"] if j < p else [])
+        end = rng.choice(ends)
+        if end == "fail":
+            arrive("0:err1")                # a failing trial re-opens the breaker
+            state[0] = "open"
+        else:
+            ops.append("manual " + end)
+            state[0] = "open" if end == "force_open" else "closed"
+        if state[0] == "closed" and rng.random() < 0.3:
+            arrive(rng.choice(["0:ok", "300:ok"]))      # ordinary traffic while closed
+    trip()
+    fill = [arrive(rng.choice(["500:ok", "500:ok", "0:never"])) for _ in range(p)]
+    rng.shuffle(leftovers)
+    for x in leftovers:
+        r = rng.random()
+        if r < 0.65:
+            if rng.random() < 0.5:
+                c[0] += 1
+                ops.append(ondrop(rng, d, x, c[0], 0.2))
+            ops.append("drop %d" % x)
+        elif r < 0.8:
+            ops += ["adv 1", "poll %d" % x]
+        else:
+            continue
+        for _ in range(rng.randint(1, 2)):
+            arrive(rng.choice(["500:ok", "0:ok"]))      # late caller: every slot is taken by a live trial
+    if rng.random() < 0.7:
+        x = rng.choice(fill)
+        if rng.random() < 0.6:
+            c[0] += 1
+            ops.append(ondrop(rng, d, x, c[0], 0.2))    # arrives during the tear-down of a trial of THIS episode: slot still held
+        ops.append("drop %d" % x)
+        arrive(rng.choice(["500:ok", "0:ok"]))          # after the tear-down: gets the slot
+        arrive("0:ok")
+    ops += ["adv %d" % rng.choice([500, 700, 5000]), "settle", "probe views"]
+    return {"header": header(d), "ops": ops}
+
+
 def gen_c09(rng, tier):
     r = rng.random()
-    if r < 0.2:
+    if r < 0.1:
         return gen_stale_trial(rng, tier)
-    if r < 0.26:
+    if r < 0.3:
+        return gen_episodes(rng, tier)
+    if r < 0.36:
         return gen_pending_fallback(rng, tier, halfopen=True)
     return gen_conc(rng, tier, halfopen_bias=True) if r < 0.88 else gen_conc(rng, tier)
 
@@ -391,6 +653,8 @@ class Spec:
         self.since = 0
         self.window = []      # (t, fail, slow)
         self.succ = 0
+        self.why = ""         # why it last opened by itself
+        self.notes = []       # coverage: evaluations at / one below the exact boundary
 
     def goto(self, s, t):
         if s != self.state:
@@ -428,8 +692,19 @@ class Spec:
             return
         f = sum(1 for r in win if r[1])
         s = sum(1 for r in win if r[2])
-        if f * self.fr[1] >= self.fr[0] * n or (self.slow is not None and s * self.sr[1] >= self.sr[0] * n):
+        byf = f * self.fr[1] >= self.fr[0] * n
+        bys = self.slow is not None and s * self.sr[1] >= self.sr[0] * n
+        if byf or bys:
+            eqf = byf and f * self.fr[1] == self.fr[0] * n
+            eqs = bys and s * self.sr[1] == self.sr[0] * n
+            if (eqf and not (bys and not eqs)) or (eqs and not (byf and not eqf)):
+                self.notes.append("trip-rate-equals-threshold" if n >= 10 else "trip-rate-equals-threshold-small")
+            self.why = ("the documented machine opened at t=%d: %s in a window of %d calls" % (
+                t, " and ".join((["failure rate %d/%d %s threshold %d/%d" % (f, n, "EQUALS" if eqf else "above", self.fr[0], self.fr[1])] if byf else []) +
+                                (["slow-call rate %d/%d %s threshold %d/%d" % (s, n, "EQUALS" if eqs else "above", self.sr[0], self.sr[1])] if bys else [])), n))
             self.goto("open", t)
+        elif n >= 10 and ((f + 1) * self.fr[1] >= self.fr[0] * n or (self.slow is not None and (s + 1) * self.sr[1] >= self.sr[0] * n)):
+            self.notes.append("closed-one-below-threshold")
 
     def admit(self, t):
         if self.state == "open":
@@ -450,8 +725,10 @@ def classify(cls, out, tag):
 
 def mon_c04(case, lines, meta):
     """sequential histories: the observable state follows the documented machine, all views agree"""
-    cfg = kvs(case["header"])
-    sp = Spec(cfg)
+    return _run_c04(case, lines, Spec(kvs(case["header"])))
+
+
+def _run_c04(case, lines, sp):
     tags = {}
     for o in case["ops"]:
         w = o.split()
@@ -465,10 +742,13 @@ def mon_c04(case, lines, meta):
             continue
         if w[0] == "inner_call":
             if len(start) > 0:
+                sp.notes = []
                 return None   # not a sequential history: outside this monitor's quantifier
             start[w[1]] = t
             if not sp.admit(t) or (sp.state == "open"):
-                return "line %d: call %s reached the inner service although the documented machine is open (since t=%d)" % (i, w[1], sp.since)
+                sp.notes = []
+                return "line %d: call %s reached the inner service although the documented machine is open (since t=%d)%s" % (
+                    i, w[1], sp.since, "; " + sp.why if sp.why else "")
         elif w[0] == "inner_done":
             if w[3] in ("panic",):
                 start.pop(w[1], None)
@@ -485,6 +765,7 @@ def mon_c04(case, lines, meta):
             if sp.state == "open" and t - sp.since >= sp.wait:
                 return "line %d: call %s rejected although wait_duration_in_open has elapsed (open since %d, now %d)" % (i, w[1], sp.since, t)
         elif w[0] == "manual":
+            sp.why = ""
             if w[1] == "force_open":
                 sp.goto("open", t)
             elif w[1] == "force_closed":
@@ -497,8 +778,8 @@ def mon_c04(case, lines, meta):
             exp = sp.state
             got = (kv.get("state"), kv.get("sync"), kv.get("mstate"))
             if got != (exp, exp, exp) or kv.get("is_open") != ("1" if exp == "open" else "0"):
-                return "line %d: documented machine is %s, views report state=%s sync=%s metrics=%s is_open=%s" % (
-                    i, exp, got[0], got[1], got[2], kv.get("is_open"))
+                return "line %d: documented machine is %s, views report state=%s sync=%s metrics=%s is_open=%s%s" % (
+                    i, exp, got[0], got[1], got[2], kv.get("is_open"), "; " + sp.why if exp == "open" and sp.why else "")
             win = sp.view(t, False)
             n, f, s = len(win), sum(1 for r in win if r[1]), sum(1 for r in win if r[2])
             if sp.state == "closed" and (int(kv["total"]), int(kv["fail"]), int(kv["slow"])) != (n, f, s):
@@ -509,12 +790,21 @@ def mon_c04(case, lines, meta):
 
 
 def mon_c09(case, lines, meta):
-    """per half-open episode: trial calls that reached the inner service and were not cancelled <= permitted"""
+    """per half-open episode: trial calls that reached the inner service and were not cancelled <= permitted. A cancelled
+    trial counts until its inner call has been destroyed (`inner_drop` is logged at the end of that destructor), so a
+    caller admitted during the tear-down (`#ondrop`) is in the wrapped service together with the cancelled one."""
     cfg = kvs(case["header"])
     permitted = int(cfg.get("permitted", "1"))
+    teardown = {}       # caller that arrived from inside the destructor of a cancelled call -> that call's caller
+    for _, m in meta or ():
+        mw = m.split()
+        if mw[0] == "#ondrop":
+            teardown[mw[2]] = mw[1]
     in_half = False
     trials = set()      # serials of trial calls of this episode, not cancelled
-    everything = 0
+    older = set()       # serials of calls started before this episode, still in flight
+    flying = set()
+    hint = ""
     for i, l in enumerate(lines):
         t, w = tparse(l)
         if not w:
@@ -522,21 +812,67 @@ def mon_c09(case, lines, meta):
         if w[0] == "transition":
             in_half = (w[2] == "halfopen")
             trials = set()
-            everything = 0
-        elif w[0] == "inner_call" and in_half:
-            trials.add(w[2])
-            everything += 1
-            if len(trials) > max(permitted, 1):
-                return "line %d: %d trial calls reached the inner service in one half-open episode (permitted_calls_in_half_open=%d)" % (i, len(trials), permitted)
-        elif w[0] == "inner_drop" or (w[0] == "inner_done" and w[3] == "panic"):
-            trials.discard(w[2])
+            older = set(flying)
+            hint = ""
+        elif w[0] == "inner_call":
+            flying.add(w[2])
+            if in_half:
+                trials.add(w[2])
+                if len(trials) > max(permitted, 1):
+                    if w[1] in teardown:
+                        hint = "; caller %s arrived during the tear-down of the cancelled call of caller %s, which had not yet left the wrapped service" % (w[1], teardown[w[1]])
+                    return "line %d: %d trial calls reached the inner service in one half-open episode (permitted_calls_in_half_open=%d)%s" % (
+                        i, len(trials), permitted, hint)
+        elif w[0] == "inner_drop" or w[0] == "inner_done":
+            flying.discard(w[2])
+            if w[0] == "inner_drop" or w[3] == "panic":
+                trials.discard(w[2])
+            if w[0] == "inner_drop" and in_half and w[2] in older:
+                hint = "; the last call cancelled before that (caller %s, serial %s at t=%d) had been admitted before this episode began and held none of its slots" % (w[1], w[2], t)
+            older.discard(w[2])
     return None
 
 
-def transitions(case, lines):
+def transitions(case, lines, meta=()):
     tags = []
     pending = set()       # callers whose fallback has been invoked and has not finished
     called_now = set()    # … invoked by the previous line (a result right after it = finished at once)
+    # arrivals during the tear-down of a cancelled call (`manual ondrop`): what happened to the arriving caller
+    for pos, m in meta or ():
+        mw = m.split()
+        if mw[0] != "#ondrop" or pos < 0:
+            continue
+        for l in lines[pos:]:
+            _, x = tparse(l)
+            if x and len(x) > 1 and x[1] == mw[2] and x[0] in ("inner_call", "fallback_call", "result"):
+                tags.append("teardown-arrival-" + ("admitted" if x[0] == "inner_call" else "rejected"))
+                break
+    # half-open episodes: leftovers of earlier episodes, operator overrides in the middle of an episode
+    ntr = 0
+    state = "closed"
+    born = {}             # serial of a call in flight -> (number of transitions seen when it started, trial?)
+    for l in lines:
+        _, w = tparse(l)
+        if not w:
+            continue
+        if w[0] == "transition":
+            ntr += 1
+            state = w[2]
+        elif w[0] == "inner_call":
+            born[w[2]] = (ntr, state == "halfopen")
+        elif w[0] in ("inner_drop", "inner_done") and w[2] in born:
+            b, trial = born.pop(w[2])
+            if trial and state == "halfopen":
+                full = sum(1 for bb, tt in born.values() if tt and bb == ntr) >= int(kvs(case["header"]).get("permitted", "1"))
+                if b != ntr:
+                    tags.append("leftover-%s%s" % ("dropped" if w[0] == "inner_drop" else "completed", "-while-full" if full else ""))
+                elif w[0] == "inner_drop":
+                    tags.append("trial-dropped")
+        elif w[0] == "manual" and state == "halfopen" and any(tt and bb == ntr for bb, tt in born.values()):
+            tags.append("manual-%s-midepisode" % w[1])
+    sp = Spec(kvs(case["header"]))
+    if _run_c04(case, lines, sp) is None:
+        tags += sorted(set(sp.notes))        # sequential histories: evaluations exactly at / one below a threshold
     for l in lines:
         _, w = tparse(l)
         if not w:
@@ -583,8 +919,14 @@ ALL_TR = ["tr-closed-open", "tr-open-halfopen", "tr-halfopen-closed", "tr-halfop
           "fallback-late-ok", "fallback-late-err", "fallback-late-panic", "fallback_drop", "reject-during-pending-fallback",
           "admit-during-pending-fallback", "record-during-pending-fallback", "probe-during-pending-fallback", "manual-during-pending-fallback"]
 
+TR_BOUNDARY = ["trip-rate-equals-threshold", "closed-one-below-threshold"]
+TR_TEARDOWN = ["teardown-arrival-rejected", "teardown-arrival-admitted"]
+TR_EPISODES = ["leftover-dropped-while-full", "leftover-completed-while-full", "trial-dropped",
+               "manual-reset-midepisode", "manual-force_open-midepisode", "manual-force_closed-midepisode"]
+
 LEVEL_NOTE = ("Trusted: Lean kernel; the transcription of circuit.rs / lib.rs in TR.Model.Circuit (validated only by the sampled "
-              "correspondence check); thresholds are exact rationals num/den (equal to the f64 comparison for the window sizes exercised); "
+              "correspondence check); thresholds are exact rationals num/den (equal to the code's f64 comparison k/n >= fl(num/den): both sides are correctly "
+              "rounded values of rationals that differ by >= 1/(n*den); checked by gen.circuit.f64_agrees on every generated threshold and total); "
               "tokio::sync::Mutex is uncontended in the single-threaded harness (each critical section is one model function); the harness "
               "(virtual clock, manual poller) and python diff/monitors.")
 
@@ -597,31 +939,39 @@ COMMON = {
     "lean_files": ["TR.Model.Circuit", "TR.Lemmas.Circuit", "TR.Lemmas.CircuitState", "TR.Lemmas.CircuitWindow", "TR.Lemmas.CircuitRefine", "TR.Spec.Breaker"],
     "sizes": (400, 20000),
     "trusted": ["transcription of Circuit / CircuitBreaker::call in TR.Model.Circuit (sampled by the correspondence check)",
-                "exact-rational threshold comparison = f64 comparison for the generated window sizes",
+                "exact-rational threshold comparison = the code's f64 comparison (argument in gen/circuit.py; checked by f64_agrees on every generated threshold/total)",
                 "harness: clock_gettime interposition, manual poller; python diff/monitors"],
     "assumptions": ["each critical section under the breaker's mutex is atomic", "usize as unbounded Nat"],
     "level_note": LEVEL_NOTE,
 }
 
 SPECS = {
-    "C03": dict(COMMON, module="TR.Props.C03", gen=gen_c03, monitors=[("c03-open-shields", mon_c03), ("c03-answered-at-once", mon_at_once)],
+    "C03": dict(COMMON, module="TR.Props.C03", gen=gen_c03, all_transitions=ALL_TR + TR_TEARDOWN, monitors=[("c03-open-shields", mon_c03), ("c03-answered-at-once", mon_at_once)],
                 rule="concurrent callers on clones (arrive/poll/drop/adv/settle/manual/probe), opening by failure rate, slow-call rate and "
                      "force_open, advances biased to wait-1/wait/wait+1; fallbacks that are futures of their own (fb=<lat>:<ok|errK|panic|never>) left pending "
-                     "while other callers arrive, earlier calls are recorded, views are probed and manual overrides issued; distinct = distinct implementation log; non-trivial = >= 2 state transitions",
+                     "while other callers arrive, earlier calls are recorded, views are probed and manual overrides issued; callers arriving from inside the "
+                     "destructor of a cancelled call (manual ondrop); distinct = distinct implementation log; non-trivial = >= 2 state transitions",
                 level_text="Theorems TR.Props.C03.*: in every reachable state and for every step, an inner call is started only if the breaker "
                            "was not open before the admission or wait_duration_in_open had elapsed (and it first moved to half-open); a rejected "
                            "caller gets err:open / the fallback is invoked in the same step (whatever other callers' fallbacks are doing) and never an inner call; "
                            "a pending fallback touches nothing of the breaker and no other step depends on it; the lock-free mirror always equals the state."),
-    "C04": dict(COMMON, module="TR.Props.C04", gen=gen_c04, monitors=[("c04-documented-machine", mon_c04)],
+    "C04": dict(COMMON, module="TR.Props.C04", gen=gen_c04, all_transitions=ALL_TR + TR_BOUNDARY, monitors=[("c04-documented-machine", mon_c04)],
                 rule="sequential histories (length 10..300) over success/failure/slow success/slow failure/wait/force_open/force_closed/reset with "
-                     "probe views after every step; both window types; thresholds incl. 0 and 1; min calls below/equal/above the window; three classifiers",
+                     "probe views after every step; both window types; thresholds incl. 0 and 1; min calls below/equal/above the window; three classifiers; "
+                     "25%: exact-boundary configurations (thresholds with 2-3 decimals, windows up to 100, count- and time-based, failure and slow-call rate) whose "
+                     "window ends exactly at / one below / one above the threshold, directly or by sliding; half of them float-sensitive boundaries (gen.circuit.boundaries)",
                 level_text="Theorems TR.Props.C04.*: the model's window is exactly the last sliding_window_size outcomes (count) / the outcomes no older "
                            "than the window duration (time); the incrementally maintained counters equal the counts over that window; closed->open exactly when the "
                            "documented condition holds; open->half-open at the first call after the wait; half-open->closed after permitted successes, ->open on a failure; "
+                           "a rate exactly equal to the threshold trips, one below stays closed (exact rational comparison); "
                            "reset empties the window; all views are the same function of the state."),
-    "C09": dict(COMMON, module="TR.Props.C09", gen=gen_c09, monitors=[("c09-halfopen-trials", mon_c09), ("c09-excess-answered-at-once", mon_at_once)],
+    "C09": dict(COMMON, module="TR.Props.C09", gen=gen_c09, all_transitions=ALL_TR + TR_TEARDOWN + TR_EPISODES, monitors=[("c09-halfopen-trials", mon_c09), ("c09-excess-answered-at-once", mon_at_once)],
                 rule="breaker driven to half-open, then many callers arriving together with slow trial calls, mixed outcomes, drops and panics of "
-                     "trial futures; both window types",
+                     "trial futures; both window types; 20%: several half-open episodes in one history, ended in the middle by reset / force_closed / force_open / a failing "
+                     "trial with trials still in flight, the last episode filled, then the leftovers dropped or completed with late callers after each; callers arriving "
+                     "from inside the destructor of a cancelled trial (manual ondrop) with all slots taken",
                 level_text="Theorems TR.Props.C09.*: in every reachable half-open state, trial calls started in the episode minus those cancelled equals "
-                           "half_open_admitted <= permitted; excess callers are rejected in the same step; no wedge: when no trial of the episode is in flight a slot is free."),
+                           "half_open_admitted <= permitted; excess callers are rejected in the same step; no wedge: when no trial of the episode is in flight a slot is free; "
+                           "every taken slot belongs to a live (or succeeded) trial of the current episode, overrides never rewind the episode counter, cancelling a leftover frees nothing; "
+                           "a caller arriving during the tear-down of a cancelled trial (before its drop) is rejected when all slots are taken."),
 }
